@@ -12,6 +12,8 @@
 //	    byte string; the re-encoding of the decoded value under all rotations as well
 //	(c) side-chain records under every (network id, ledger height, fork-check flag) regime around EXTRA_INFO_HEIGHT
 //
+//   (e) receiver-state independence (receiver.go): decoding B into a receiver that holds A / failed on truncated A /
+//       already holds B gives exactly B
 // Child processes (`ulimit -v 4000000`, timeout), deviation-bounded, on representative encodings of every type:
 //
 //	(d) every truncation, every byte x 4 replacement values, and AT EVERY OFFSET a var-uint and a u64 count/length
@@ -49,6 +51,8 @@ type checker struct {
 	asym       map[string]map[string]int // type -> asymmetry -> count
 	perType    map[string]map[string]int
 	canonEvals int64
+	recvSeqs   int64
+	recvFailed int64
 }
 
 func (k *checker) noteAsym(typ, what string) {
@@ -402,6 +406,17 @@ func main() {
 		if carriesMap {
 			mapTypes = append(mapTypes, name)
 		}
+		// (e) receiver-state independence
+		if c.regime {
+			setRegime(production)
+			k.receiverState(c, pairs, true, "net=0 flag=true height=0")
+			pre := regime{1, true, 0}
+			setRegime(pre)
+			k.receiverState(c, false, extraInfoOnWire(pre), "net=1 flag=true height=0 (pre-fork)")
+			setRegime(production)
+		} else {
+			k.receiverState(c, pairs, true, "")
+		}
 		for vi, p := range vals {
 			if vi%64 == 0 && r.Expired() {
 				r.Capped("in-process checks cut inside " + name)
@@ -472,6 +487,8 @@ func main() {
 		"every type covered by the table; per type: zero / typical / max vector + every 1-deviation of the typical vector over the field-kind alphabets " +
 		"(ints 0,1,0xFC,0xFD,0xFFFF,2^16,2^32-1,2^32,2^64-1; byte strings nil,empty,1,0xFC,0xFD bytes; strings incl. non-UTF8; addresses; big ints to 2^2023; slices 0..3; maps 0..4 entries)" +
 		map[bool]string{false: "", true: " + every 2-deviation and 0xFFFF / 0x10000 byte strings"}[pairs] +
+		; receiver state: decode(encode(B)) into a receiver that decoded another instance A / failed on every truncation of A (fresh and after A) / decoded B already, " +
+		"B over the whole value set + 2 colliding instances (maps with overlapping and disjoint key sets), A over zero / typical / max / colliding instances (thorough: all pairs)" +
 		"; canonical: all insertion-order permutations (product over the record's maps) x 8 iteration rotations; side-chain records x 16 (net id, flag, height) regimes; " +
 		"malformed: see mutation_* (child processes under ulimit -v 4000000)"
 	cov["types_scanned"] = len(found)
@@ -481,6 +498,8 @@ func main() {
 	cov["map_carrying_types"] = mapTypes
 	cov["map_values_checked_canonical"] = cn
 	cov["canonical_encodings_compared"] = k.canonEvals
+	cov["receiver_state_sequences"] = k.recvSeqs
+	cov["receiver_state_sequences_with_a_failed_decode_before_B"] = k.recvFailed
 	cov["maporder_distinct_orders_selftest"] = distinctOrders
 	cov["per_type"] = k.perType
 	cov["documented_asymmetries"] = k.asym
@@ -496,7 +515,8 @@ func main() {
 		"a mutated input that decodes successfully is not a violation unless it is a strict truncation of a valid encoding or the accepted value itself fails to round trip",
 		"maps of at most 4 entries: one runtime bucket, so the 8 rotations x all insertion orders are all iteration orders the Go 1.23 runtime can produce")
 	if r.NViolations() == 0 && len(cov["caps_hit_local"].([]string)) == 0 {
-		r.Require("roundtrip_ok", "canonical_ok", "regime_pair_checked", "mutant_accepted", "mutant_clean_error", "storage_item_ok")
+		r.Require("roundtrip_ok", "canonical_ok", "regime_pair_checked", "mutant_accepted", "mutant_clean_error", "storage_item_ok",
+			"receiver_state_checked", "receiver_state_after_failed_decode")
 	}
 	delete(cov, "caps_hit_local")
 	r.Finish(cov)
